@@ -54,6 +54,15 @@ type Store struct {
 	removes []cid.Cid          // every successful Remove in order
 	whole   *api
 	delay   time.Duration // every read takes this long (or until its context ends)
+	addHold func(nth int, c cid.Cid) <-chan struct{} // optional: a write waits on the returned channel before it lands
+}
+
+// SetAddHold installs a function asked before every block write lands; a non-nil channel makes that write wait
+// until the channel is closed (the block is not in the store meanwhile).
+func (s *Store) SetAddHold(f func(nth int, c cid.Cid) <-chan struct{}) {
+	s.mu.Lock()
+	defer s.mu.Unlock()
+	s.addHold = f
 }
 
 // SetDelay makes every read take d (real time) before it is answered; a read whose context ends first returns the
@@ -273,15 +282,23 @@ func (d *dagSvc) Add(ctx context.Context, n format.Node) error {
 	}
 	s.events.Add(1)
 	s.mu.Lock()
-	defer s.mu.Unlock()
 	nth := len(s.adds)
 	s.adds = append(s.adds, n.Cid())
 	if s.addFail != nil {
 		if err := s.addFail(nth, n.Cid()); err != nil {
+			s.mu.Unlock()
 			return err
 		}
 	}
+	if s.addHold != nil {
+		if hold := s.addHold(nth, n.Cid()); hold != nil {
+			s.mu.Unlock()
+			<-hold
+			s.mu.Lock()
+		}
+	}
 	s.putLocked(n.Cid(), append([]byte(nil), n.RawData()...))
+	s.mu.Unlock()
 	return nil
 }
 
